@@ -223,9 +223,7 @@ def worker(task):
             dt += dt2
             if r2 == "unsat":
                 r = "unsat"
-        if r == "unknown":
-            r, dt2, model, s = check(o.pc, o.goal, timeout_ms)
-            dt += dt2
+        long_pending = r == "unknown"
         backend = "z3-5.1.0"
         quant = None
         rec = dict(name=o.name, line=o.line, kind="assert", note=o.note)
@@ -252,6 +250,11 @@ def worker(task):
                     rec["small_scope"] = r2
             except Exception as e:
                 rec["small_scope"] = f"error: {e}"
+        if r == "unknown" and long_pending:
+            r, dt2, model, s = check(o.pc, o.goal, timeout_ms)
+            dt += dt2
+            if r == "sat" and has_quantifier(list(o.pc) + [o.goal]):
+                r, model = "unknown", None
         if r == "unknown":
             # (b) second attempt with a doubled budget and another seed, then other solvers
             t0 = time.time()
@@ -269,7 +272,7 @@ def worker(task):
             if r2 == "unsat":
                 r = r2
             else:
-                r3, backend3, dt3 = fallback(s, o.name, budget_s=max(30, timeout_ms // 500))
+                r3, backend3, dt3 = fallback(s, o.name, budget_s=max(20, timeout_ms // 1000))
                 dt += dt3
                 if r3 == "unsat":
                     r, backend = r3, backend3
